@@ -113,11 +113,13 @@ func repoSat(t, v string) bool {
 	return err == nil && c.Match(v)
 }
 
-// intervalSat decides membership for one bracketed interval whose bounds and
-// candidate are all of the generator's single-digit "x.y" form, where string
-// order is version order. It is what answers for the texts Maven's own parser
-// refuses, such as "[1.0,1.0)" (identical boundaries): by interval arithmetic
-// those contain nothing, whatever the repository's parser makes of them.
+// intervalSat decides membership for a union of bracketed intervals whose
+// bounds and candidate are all of the generator's single-digit "x.y" form,
+// where string order is version order. It is what answers for the texts
+// Maven's own parser refuses, such as "[1.0,1.0)" (identical boundaries) or
+// "[3.0,4.0],[1.0,2.0]" (a union written in descending order): by interval
+// arithmetic a version is inside iff it is inside one of the intervals,
+// whatever the repository's parser makes of the text.
 func intervalSat(t, v string) (in, ok bool) {
 	xy := func(s string) bool {
 		return len(s) == 3 && s[0] >= '0' && s[0] <= '9' && s[1] == '.' && s[2] >= '0' && s[2] <= '9'
@@ -125,26 +127,54 @@ func intervalSat(t, v string) (in, ok bool) {
 	if len(t) < 5 || !xy(v) {
 		return false, false
 	}
-	open, close := t[0], t[len(t)-1]
-	if (open != '[' && open != '(') || (close != ']' && close != ')') {
-		return false, false
+	rest := t
+	for rest != "" {
+		if rest[0] != '[' && rest[0] != '(' {
+			return false, false
+		}
+		end := strings.IndexAny(rest, "])")
+		if end < 0 {
+			return false, false
+		}
+		one := rest[:end+1]
+		rest = rest[end+1:]
+		if rest != "" {
+			if rest[0] != ',' {
+				return false, false
+			}
+			rest = rest[1:]
+			if rest == "" {
+				return false, false
+			}
+		}
+		open, close := one[0], one[len(one)-1]
+		body := one[1 : len(one)-1]
+		i := strings.IndexByte(body, ',')
+		var lo, hi string
+		if i < 0 {
+			// "[v]": exactly v (only with closed brackets).
+			if open != '[' || close != ']' || !xy(body) {
+				return false, false
+			}
+			lo, hi = body, body
+		} else {
+			lo, hi = body[:i], body[i+1:]
+			if strings.IndexByte(hi, ',') >= 0 || (lo != "" && !xy(lo)) || (hi != "" && !xy(hi)) {
+				return false, false
+			}
+		}
+		inside := true
+		if lo != "" && (v < lo || (v == lo && open == '(')) {
+			inside = false
+		}
+		if hi != "" && (v > hi || (v == hi && close == ')')) {
+			inside = false
+		}
+		if inside {
+			in = true
+		}
 	}
-	body := t[1 : len(t)-1]
-	i := strings.IndexByte(body, ',')
-	if i < 0 || strings.IndexByte(body[i+1:], ',') >= 0 {
-		return false, false
-	}
-	lo, hi := body[:i], body[i+1:]
-	if (lo != "" && !xy(lo)) || (hi != "" && !xy(hi)) {
-		return false, false
-	}
-	if lo != "" && (v < lo || (v == lo && open == '(')) {
-		return false, true
-	}
-	if hi != "" && (v > hi || (v == hi && close == ')')) {
-		return false, true
-	}
-	return true, true
+	return in, true
 }
 
 func (o *ranges) isRange(t string) bool {
